@@ -1,2 +1,6 @@
 import P2.Model.Goldilocks
 import P2.Model.GlExt
+import P2.Model.Fp
+import P2.Model.Ext
+import P2.Drv.Util
+import P2.Drv.C14
